@@ -517,7 +517,7 @@ func judgeError(r *mon.Run, c call, cas any) {
 	if knownCodes != nil && !knownCodes[v.Code] {
 		r.Violate("unknown-code", key(strconv.Itoa(v.Code)), fmt.Sprintf("%s answered with code %d, which package errs does not define", c.Entry, v.Code), cas)
 	}
-	for _, bad := range []string{"%!", "0xc0", "runtime error", "goroutine "} {
+	for _, bad := range []string{"%!", "0xc0", "runtime error", "goroutine ", "interface conversion:", "invalid memory address", "nil pointer dereference", "index out of range [", "slice bounds out of range"} {
 		if strings.Contains(v.Message, bad) || strings.Contains(v.Rendered, bad) {
 			if !strings.Contains(c.Text, bad) { // the message may legitimately quote the input
 				r.Violate("message-dump", key(fmt.Sprintf("code %d contains %q", v.Code, bad)), fmt.Sprintf("%s: message %q for %q", c.Entry, mon.Trunc(v.Rendered, 200), mon.Trunc(c.Text, 120)), cas)
